@@ -4,6 +4,10 @@ import json, os
 VERIF = os.path.dirname(os.path.dirname(os.path.abspath(__file__)))
 
 CLAIMS = {
+ "C03": {
+  "text": "Bounded model checking of the operators that carry state across batches: PhysicalLimit::poll_execute (real operator and shared state) over 3 zero-column batches with symbolic row counts and symbolic limit/offset - after every batch the rows emitted equal min(limit, rows seen - offset), never more than the batch holds, Exhausted exactly at the limit; generate_series: the concatenation of calls is the same arithmetic progression whatever the output capacity, complete, and it terminates at the i64 limits. Found and fixed: generate_series overflowing past i64::MAX.",
+  "note": "parking_lot slow paths stubbed with panics (sequential harness). Outside: hash vs nested-loop join equivalence, partitioned hash aggregate merge, sort merge queue, partition and thread counts, INSERT/CTAS row counts.",
+  "design": "§3 C03"},
  "C05": {
   "text": "Bounded model checking of the real ScalarFunction::execute entry points for AND/OR (2-input BinaryExecutor path; 3-input UniformExecutor path in thorough), NOT, IS [NOT] NULL/TRUE/FALSE, the six comparison operators and IS [NOT] DISTINCT FROM on integer columns: for every value of the operands (full width, symbolic) and every NULL pattern of a one-row batch (each pattern its own harness) the output row equals the Kleene / SQL definition. Known finding F8 (NULL AND false, NULL OR true) is isolated in its own harnesses.",
   "note": "Outside: float NaN comparison semantics, strings, date/time, CASE, overload resolution, multi-row batches and dictionary/constant input formats (thorough adds some). NULL input rows use the AllInvalid validity representation (bitmap inputs to the binary executor exceed 14 GB in CBMC).",
@@ -12,10 +16,26 @@ CLAIMS = {
   "text": "Bounded model checking of the page-level Parquet decoders against reference decoders written from the format definition: LSB-first bit unpacking (incl. the carried bit position), ULEB128, zigzag (bijection over all 64-bit values), the RLE/bit-packing hybrid decoder step by step from an arbitrary valid decoder state (RLE step, literal step at every bit position, run-header step) and DELTA_BINARY_PACKED value reconstruction with wrapping arithmetic. Each obligation includes resume invariance: decoding n values in one call = decoding k then n-k (a run / miniblock continued in the next output batch). Found and fixed: the delta decoder repeated a value at the start of every continued read.",
   "note": "Sizes (output length, split point, run length, bit width) are concrete per harness, data bytes / values / bit positions symbolic (symbolic sizes make CBMC merge infeasible error returns into the decoder state). Outside: thrift footer and page headers, compression codecs, dictionary pages, DELTA_LENGTH/DELTA_BYTE_ARRAY, BYTE_STREAM_SPLIT, PLAIN with definition levels, column reader across pages/row groups, metadata table functions.",
   "design": "§3 C10"},
+ "C15": {
+  "text": "Narrow claim: the run-time kernels reachable from well-formed SQL return a value or an error in bounded time for every argument value, decided by the kernel harnesses tagged C15 (integer operators' unrepresentable region, gcd/lcm extremes, substring / left / right / lpad with extreme or negative arguments, generate_series at the i64 limits, decimal type arithmetic with negative scales); thorough adds the tokenizer on every UTF-8 text of <= 2 bytes. The integer-operator panics are known findings F1/F2/F17; the hangs and panics in the string kernels, generate_series and the decimal type rule were found and fixed.",
+  "note": "Outside: parser, resolver, binder, planner recursion depth, session/catalog state after a failed statement, worker-thread panic propagation.",
+  "design": "§3 C15"},
+ "C16": {
+  "text": "Bounded model checking with CBMC's memory model (null/dangling/out-of-bounds/misaligned dereference, copy_nonoverlapping overlap, double/invalid free) of the hand-managed containers: DbVec<u8> through allocation, two pushes with reallocation, shrink, grow, read-back and drop; push_slice_no_resize; StringPtr/StringView construction and read-back on both sides of the 12-byte inline threshold and their 16-byte round trip. Every other harness of this framework also runs under the same pointer checks.",
+  "note": "Sequential only (no data races); no uninitialised-read check (-Z uninit-checks ICEs in this Kani). Outside: row blocks, row layout, sort runs, hash tables, aggregate collections.",
+  "design": "§3 C16"},
+ "C18": {
+  "text": "Bounded model checking of the announced result type of decimal +/-: for every pair of legal operand types (any DECIMAL(p,s) of the kind, or an integer type) common_add_sub_decimal_type_info returns a legal type equal to the documented rule (scale = max, precision = integer digits + scale + 1, capped with the cap reported), symmetric in its operands, computed without overflow; negative scales must not overflow. Found and fixed: i8 overflow (planner panic) for negative scales.",
+  "note": "Outside: DESCRIBE vs result schema, UNION type unification, overload resolution, timestamp units; DecimalMul's rule lives inside bind() and is not harnessed.",
+  "design": "§3 C18"},
  "C19": {
   "text": "Bounded model checking of the same decoder layer with NO validity assumption on the bytes: arbitrary / truncated buffers, arbitrary bit width bytes and arbitrary delta headers must produce Ok or Err - no panic, no division by zero, no read past the buffer (Kani's pointer checks + the cursor's debug assertions). Found and fixed: mask-table index out of bounds for widths > 64, reads past the end in bit_unpack, read_unsigned_vlq and the RLE run value, division by zero on a zero miniblock count.",
   "note": "Outside: thrift compact-protocol decoder, codecs, page_reader size arithmetic, whole-file truncation, CSV. Unbounded `vec![0; mini_block_count]` in the delta header (allocation bounded only by the varint) is documented in DESIGN.md as an open finding not expressible as a Kani check within bounds.",
   "design": "§3 C19"},
+ "C11": {
+  "text": "Bounded model checking of row-group pruning soundness: for PrimitiveRowGroupPruner over every (physical, logical) integer pairing the reader instantiates, symbolic statistics that are correct for the stored value (logical order for min_value/max_value, signed physical order for the deprecated fields), symbolic exactness flags and a symbolic filter constant: prune => stored value != constant. Found and fixed: unsound pruning of unsigned columns with deprecated signed-order statistics.",
+  "note": "One ConstantEq filter. Outside: the optimizer rules that create scan filters, projections, glob expansion, multi-file/partition assignment, float/byte-array statistics.",
+  "design": "§3 C11"},
  "C12": {
   "text": "Bounded model checking of Add/Sub/Mul/Div/Rem/Negate::execute for every integer width through the real executor: in the representable region the output equals the exact mathematical result (oracle: std checked_*); in the unrepresentable region (overflow, zero divisor) the statement must return an error. Integer->decimal and decimal->decimal rescaling exactness/precision (shared with C13). The unrepresentable region fails today for every operator (known findings F1/F2: raw operators panic or wrap) and is kept in separate harnesses so the exact region stays a live regression check.",
   "note": "Bounds: one-row arrays; full-width operands except div/rem exact for >=32-bit (|a|,|b| < 2^15) and mul err for >=64-bit (|b| < 2^8), stated in evidence. Outside: SUM/AVG states (C07), decimal arithmetic result-type rules (C18), float arithmetic, abs/round/ceil/floor, gcd/lcm/factorial.",
@@ -24,6 +44,10 @@ CLAIMS = {
   "text": "Bounded model checking of the real cast kernels PrimToPrim (integer->integer all pairs in thorough, float->integer), IntToDecimal and DecimalToDecimal through CastFunction::{bind,cast}: representable => exact; otherwise error (CAST) or NULL (TRY_CAST); decimal results never exceed the target precision; downscaling rounds half away from zero (checked with a multiplication-only characterisation). Found and fixed: 10^scale computed in i32 (two casts), validate_precision overflow on MIN, missing precision check in decimal->decimal.",
   "note": "Stub (stated): CastErrorState::set_error is replaced by a flag-recording stub in the array-level harnesses because dropping a possibly-initialised DbError does not terminate in CBMC; the real set_error/into_result pair is decided by c13_cast_error_state. Decimal (p,s) are concrete per harness. Outside: text parsing/formatting (std dec2flt / fmt), float->float, dates/intervals.",
   "design": "§3 C13"},
+ "C06": {
+  "text": "Bounded model checking of the preserved-side row accounting of outer/semi/anti joins: MatchIndexIter yields exactly the rows whose match bit has the requested value - once, ascending - and announces that count (it sizes the output selection); MatchTracker::{left_outer,left_semi,right_outer}_result emit exactly the unmatched / matched rows for symbolic match bits and a symbolic probe offset.",
+  "note": "Zero-column batches (row counts and positions, not payload). Outside: JoinHashTable build/probe/drain, PredicateRowMatcher, hash vs nested-loop equivalence, NULL key semantics, planner.",
+  "design": "§3 C06"},
  "C07": {
   "text": "Bounded model checking of the aggregate state algebra on the real state types (SUM int/decimal, COUNT, MIN, MAX, FIRST, BOOL_AND/OR, BIT_AND/OR, AVG over BIGINT): for every sequence of up to 4 symbolic inputs and every split into two partial states, finalize(merge(A,B)) = finalize(sequential) = the mathematical aggregate; empty input gives NULL (0 for COUNT); SUM overflow must fail. This is the partition/arrival-order independence of the property at the level where it is decided (the states), for all values rather than the sampled ones. Found and fixed: SUM restarting from 0 on overflow.",
   "note": "Outside: group identification (hash table/directory resize, partitioned merge), DISTINCT pre-aggregation, ROLLUP/CUBE/GROUPING, string_agg, float accumulators (rounding order), UNION.",
@@ -38,6 +62,10 @@ CLAIMS = {
   "design": "§3 C08"},
 }
 NOT_APPLICABLE = {
+ "C02": "the planned translation-validation engine for the expression rewriter (z3) is not built; only the constant-LIKE rewrite equivalence exists (harnesses tagged C20/C02), which is not enough to claim the property; F9 (DistributiveOrRewrite) is documented in DESIGN.md",
+ "C04": "Kani has no threads; the atomic-call schedule harness over ResultStream/Union/Materialize did not leave symbolic execution in the design probe and was not pursued",
+ "C14": "MemoryCatalog is built on lock-free scc maps keyed by strings (pointer-rich, concurrent); the row-visibility kernel was a stretch goal not reached",
+ "C17": "csv_core builds its DFA in the constructor (unwind >= 257, >15 min symex without reaching the decoder); the rest of the property rests on std float/int parsing",
  "C01": "whole-pipeline semantic equivalence (parser->binder->planner->optimizer->pipelines over heap-allocated plan graphs); no bounded kernel is this property; ingredients are claimed under C05-C08, C12, C13",
  "C09": "decorrelation/CTE/view semantics are defined only through whole-plan execution over BindContext graphs; not encodable within reach of Kani/SMT here",
 }
